@@ -369,7 +369,12 @@ def oracle(case, obs):
             e = (next((x for x in cands if x["expect"] is not None and x["expect"] == res), None)
                  or next((x for x in cands if x["expect"] is None), None) or cands[0])
             same = [x for x in cands if x["expect"] == e["expect"] and x["op"] == e["op"]]
-            e = min(same, key=lambda x: x["min_at"])
+            if r.get("dup") and res == ECANCELED and e["expect"] != ECANCELED:
+                # a cancel hit one of several entries sharing this user_data: attribute it to the
+                # youngest, which constrains the remaining ones least
+                e = max(same, key=lambda x: x["min_at"])
+            else:
+                e = min(same, key=lambda x: x["min_at"])
             e["done"] += 1
             e["res"] = res
             e["data"] = data
@@ -632,38 +637,36 @@ def gen_direct(rng, size=None, flavour=None):
 
 
 def gen_dup(rng):
-    """Duplicate user_data in flight at the same time (identical operations submitted at
-    different instants), cancelled by user_data: exercises the position-based lookup of
-    RingState::cancel (Vec::swap_remove order) against the model."""
+    """Several identical operations sharing one user_data, in flight at the same time
+    (submitted at the same instant, so that which of them a cancel-by-user_data hits is
+    not observable), cancelled by user_data, then drained completely."""
     L = rng.choice([100, 100, 200])
     cfg = {"mode": "direct", "seed": rng.randrange(1 << 30), "lat_ns": L, "cache": None, "nfiles": 1}
     s = [["open", 0], ["new", 8]]
     now = 0
-    uds = [5, 6]
-    op = {5: rng.choice([["fsync", 0], ["read", 0, 0, 2]]), 6: ["fsync", 0]}
     extra = 20
-    for _ in range(rng.randrange(4, 10)):
-        x = rng.random()
-        if x < 0.45:
-            u = rng.choice(uds)
-            s.append(["push", 0, op[u], u, 0])
-            if rng.random() < 0.3:
-                extra += 1
-                s.append(["push", 0, ["write", 0, rng.randrange(4), [rng.randrange(1, 200)]], extra, 0])
-            s.append(["submit", 0, 0])
-        elif x < 0.65:
+    for _ in range(rng.randrange(2, 5)):
+        u = rng.choice([5, 6])
+        op = rng.choice([["fsync", 0], ["read", 0, 0, 2]])
+        k = rng.choice([2, 2, 3, 4])
+        for _ in range(k):
+            s.append(["push", 0, op, u, 0])
+        if rng.random() < 0.5:
             extra += 1
-            s.append(["push", 0, ["cancel", rng.choice(uds)], extra, 0])
+            s.append(["push", 0, ["write", 0, rng.randrange(4), [rng.randrange(1, 200)]], extra, 0])
+        s.append(["submit", 0, 0])
+        for _ in range(rng.choice([0, 1, 1, 2])):
+            if rng.random() < 0.5:
+                now += rng.choice([10, L // 2])
+                s.append(["now", now])
+            extra += 1
+            s.append(["push", 0, ["cancel", u], extra, 0])
             s.append(["submit", 0, 0])
-        elif x < 0.85:
-            now += rng.choice([10, 50, L - 10, L])
-            s.append(["now", now])
-        else:
-            s += [["cq_new", 0], ["sync", 0]] + [["next", 0]] * rng.choice([1, 2, 3])
-    for _ in range(3):
-        now += L // 2
+        if rng.random() < 0.4:
+            s += [["cq_new", 0], ["sync", 0]] + [["next", 0]] * 3       # only cancellation results so far
+        now += L + rng.choice([0, 1, 50])
         s.append(["now", now])
-        s += [["cq_new", 0], ["sync", 0]] + [["next", 0]] * 12
+        s += [["cq_new", 0], ["sync", 0]] + [["next", 0]] * 14
     s.append(["dump", 0])
     return {"cfg": cfg, "script": s, "flavour": "dup", "full_drain": True}
 
